@@ -321,8 +321,13 @@ def handle (st : St) (seq : String) (f : List String) : St × List String :=
               let recv := c1 - c0
               let dp := debtPrice st.e dt
               if roundingSmall a.price st.e.decC then
-                let slackPaid := if recv = a.coll then paid + 1 else paid
-                mon seq "posted_price" (monPosted recv slackPaid a.bonus dp st.e.decD a.price st.e.decC)
+                if recv = a.coll then
+                  -- collateral exhausted: the charged amount is recomputed from the left-over collateral (theorem
+                  -- bid_at_posted_price_exhausted: + 2 debt units)
+                  if roundingSmallBack dp st.e.decD then
+                    mon seq "posted_price" (monPosted recv (paid + 2) a.bonus dp st.e.decD a.price st.e.decC)
+                  else []
+                else mon seq "posted_price" (monPosted recv paid a.bonus dp st.e.decD a.price st.e.decC)
               else []
             else []
           | none => []
